@@ -139,9 +139,9 @@ def judge_store_value(n):
     return j
 
 
-def _footprint(ctx, S, nbytes, n, what):
+def _footprint(ctx, S, nbytes, n, what, ptr="p"):
     """every access through p must lie inside [0, nbytes)"""
-    p = ctx.args["p"]
+    p = ctx.args[ptr]
     vt = ctx.vt
     rule = ("%s n=%d: every access (architectural footprint incl. non-suppressed masked stores) "
             "lies inside [p, p+%d)" % (what, n, nbytes))
